@@ -88,8 +88,27 @@ def alg_sort_lt_pi(info, name="y"):
     return Composite(name, parts)
 
 
-def rt2_trace(info, tier):
+def rt2_trace(info, tier, first_shepperd_only=False):
     grp, g, n = info.group, info.group.algebra, info.name
+    if first_shepperd_only:
+        # SE_2(3): exp goes through the rotation matrix and Shepperd's matrix-to-quaternion method.  The requires
+        # angle < 2 pi / 3 (trace = 1 + 2 cos(angle) > 0) selects its first branch; the other branches become dead paths,
+        # which the SMT back end must PROVE infeasible (they are never skipped silently)
+        def req(rs, sorts):
+            rv = [p for p in sorts["y"].parts if hasattr(p, "phi")][-1]
+            c = rs.poly(rv.c)
+            if rv.k == 2:      # c = cos(angle / 2): cos(angle) = 2 c^2 - 1 > -1/2
+                return [c > 0, 4 * c * c > 1]
+            c2 = 2 * c * c - 1  # c = cos(angle / 4)
+            return [c > 0, c2 > 0, 4 * c2 * c2 > 1]
+
+        def b1(y):
+            back = g.elem(y).exp(grp).log()
+            return {"back": back.param, "y": y}
+
+        return _Trace(f"C03.{n}.rt2", [alg_sort_lt_pi(info)], b1, [Ob("rt2: log(exp y) = y  (angle(y) < 2 pi / 3)", "back", "y")],
+                      functions=fns_of(info), decide=CLOSED, budget_s=900, requires_smt=req, smt_timeout=30,
+                      note="requires rotation angle < 2 pi / 3 (first Shepperd branch of from_Matrix); for 2 pi / 3 <= angle < pi the obligation is not decided")
 
     def b(y):
         back = g.elem(y).exp(grp).log()
@@ -159,6 +178,8 @@ def traces(tier="quick"):
         out.append(rt1_trace(G[n], tier))
     for n in RT2:
         out.append(rt2_trace(G[n], tier))
+    for n in ["SE23Quat"]:  # SE23Mrp: the sign atoms of |r| = tan(angle/4) block the collapsing rule atan(tan b) = b: not decided
+        out.append(rt2_trace(G[n], tier, first_shepperd_only=True))
     out.append(euler_wiring())
     out.append(rt1_trace(product_info(["SO3Mrp", "R3"], G), tier))
     return out
@@ -186,5 +207,6 @@ ASSUMPTIONS = [
     "lemma L-SO3: DCM inputs are R(q), |q| = 1",
     "closed-form cell of every series coefficient (rotation not within ~1e-3..3e-2 rad of 0; Taylor cell in C06); requires a margin from the pi singularity where x/sin(x) is undefined (divisors listed per path)",
     "MRP inputs for `principal` are canonical: |r| <= 1 (sort restriction, as in the property text)",
-    "rt2 (log(exp x) = x) is not decided for SE_2(3): its exp goes through from_Matrix (Shepperd), whose sign/branch atoms the collapsing rules cannot see through; rt1 + principal are decided there",
+    "rt2 (log(exp x) = x) for SE_2(3) is decided for the quaternion representation and rotation angles below 2 pi / 3 only (not for SE23Mrp): its exp goes through from_Matrix (Shepperd); on the other three branches (2 pi / 3 <= angle < pi) the sign atoms "
+    "hide cos(angle/2) from the collapsing rule acos(cos b) = b; rt1 + principal are decided on all branches",
 ]
